@@ -618,6 +618,8 @@ fn execute_dynamic_per_worker(
     workers: usize,
 ) -> Vec<TickDelta> {
     let next_shard = AtomicUsize::new(0);
+    #[cfg(feature = "echo_verif")]
+    crate::verif::begin_claim_epoch(workers);
 
     std::thread::scope(|s| {
         let handles: Vec<_> = (0..workers)
@@ -625,10 +627,16 @@ fn execute_dynamic_per_worker(
                 let view_copy = view;
                 let shards = &shards;
                 let next_shard = &next_shard;
+                #[cfg(feature = "echo_verif")]
+                let verif_tok = crate::verif::claim_token();
 
                 s.spawn(move || {
+                    #[cfg(feature = "echo_verif")]
+                    let _verif_exit = verif_tok.exit_guard();
                     let mut delta = TickDelta::new();
                     loop {
+                        #[cfg(feature = "echo_verif")]
+                        verif_tok.claim_point();
                         let shard_id = next_shard.fetch_add(1, Ordering::Relaxed);
                         if shard_id >= NUM_SHARDS {
                             break;
@@ -656,6 +664,8 @@ fn execute_dynamic_per_shard(
     workers: usize,
 ) -> Vec<TickDelta> {
     let next_shard = AtomicUsize::new(0);
+    #[cfg(feature = "echo_verif")]
+    crate::verif::begin_claim_epoch(workers);
 
     std::thread::scope(|s| {
         let handles: Vec<_> = (0..workers)
@@ -663,10 +673,16 @@ fn execute_dynamic_per_shard(
                 let view_copy = view;
                 let shards = &shards;
                 let next_shard = &next_shard;
+                #[cfg(feature = "echo_verif")]
+                let verif_tok = crate::verif::claim_token();
 
                 s.spawn(move || {
+                    #[cfg(feature = "echo_verif")]
+                    let _verif_exit = verif_tok.exit_guard();
                     let mut deltas: Vec<(usize, TickDelta)> = Vec::new();
                     loop {
+                        #[cfg(feature = "echo_verif")]
+                        verif_tok.claim_point();
                         let shard_id = next_shard.fetch_add(1, Ordering::Relaxed);
                         if shard_id >= NUM_SHARDS {
                             break;
@@ -923,6 +939,8 @@ where
     }
 
     let next_unit = AtomicUsize::new(0);
+    #[cfg(feature = "echo_verif")]
+    crate::verif::begin_claim_epoch(workers);
 
     std::thread::scope(|s| {
         let handles: Vec<_> = (0..workers)
@@ -930,12 +948,18 @@ where
                 let units = &units;
                 let next_unit = &next_unit;
                 let resolve_store = &resolve_store;
+                #[cfg(feature = "echo_verif")]
+                let verif_tok = crate::verif::claim_token();
 
                 s.spawn(move || -> WorkerResult {
+                    #[cfg(feature = "echo_verif")]
+                    let _verif_exit = verif_tok.exit_guard();
                     let mut delta = TickDelta::new();
 
                     // Work-stealing loop: claim units until none remain
                     loop {
+                        #[cfg(feature = "echo_verif")]
+                        verif_tok.claim_point();
                         let unit_idx = next_unit.fetch_add(1, Ordering::Relaxed);
                         if unit_idx >= units.len() {
                             break;
